@@ -59,6 +59,7 @@ type vEntry struct {
 	Err    string      `json:"err,omitempty"`
 	Bar    bool        `json:"bar,omitempty"`
 	Head   bool        `json:"head,omitempty"`
+	AF     bool        `json:"af,omitempty"` // req: the request has the auth form (method, host and path as the code compares them)
 	OSt    int         `json:"ost,omitempty"` // oracle: the masquerade handler alone on a recorder
 	OHdr   [][2]string `json:"ohdr,omitempty"`
 	OBody  string      `json:"obody,omitempty"`
@@ -81,6 +82,64 @@ type vEnv struct {
 	srv     server.Server
 	srvAddr net.Addr
 	handler http.Handler
+	// authenticator state (under mu)
+	pol   map[string]*vPol // per-credential policy; credentials without one: accepted iff they start with "good"
+	calls map[string]int   // Authenticate calls so far, per credential string (server-wide)
+	gate  chan struct{}    // credentials containing "hold" block inside Authenticate until this is closed
+}
+
+// vPol makes the authenticator's verdict for ONE credential string a function of the calling connection
+// (the remote address), of how often the credential has been presented to the authenticator, of the
+// announced bandwidth and of time (revoked / granted by the history between two attempts) - as a real
+// authenticator's is (Authenticate(addr, auth, tx); user databases change).
+type vPol struct {
+	Conns   []int  `json:"conns"`   // accepted only when presented by one of these connections (null: any)
+	Skip    int    `json:"skip"`    // the first Skip presentations are rejected
+	Max     int    `json:"max"`     // then at most Max presentations are accepted (0: no limit)
+	MaxTx   uint64 `json:"maxtx"`   // accepted only with tx <= MaxTx (0: no limit)
+	Revoked bool   `json:"revoked"` // currently revoked (toggled by the history's revoke / grant steps)
+}
+
+func (p *vPol) accepts(c int, n int, tx uint64) bool {
+	if p.Revoked || n <= p.Skip || (p.Max > 0 && n > p.Skip+p.Max) || (p.MaxTx > 0 && tx > p.MaxTx) {
+		return false
+	}
+	if p.Conns != nil {
+		for _, k := range p.Conns {
+			if k == c {
+				return true
+			}
+		}
+		return false
+	}
+	return true
+}
+
+// setRevoked is the history step "the credential is revoked / granted now" (time passing between attempts).
+func (e *vEnv) setRevoked(cred string, revoked bool) {
+	e.mu.Lock()
+	if e.pol == nil {
+		e.pol = map[string]*vPol{}
+	}
+	p := e.pol[cred]
+	if p == nil {
+		p = &vPol{}
+		e.pol[cred] = p
+	}
+	p.Revoked = revoked
+	e.mu.Unlock()
+	e.add(vEntry{C: -1, K: "pol", Auth: cred, OK: !revoked})
+}
+
+// release lets every Authenticate call that is held (and every later one) return.
+func (e *vEnv) release() {
+	e.mu.Lock()
+	select {
+	case <-e.gate:
+	default:
+		close(e.gate)
+	}
+	e.mu.Unlock()
 }
 
 func (e *vEnv) add(x vEntry) {
@@ -156,14 +215,39 @@ type vAuth struct{ e *vEnv }
 
 func (a *vAuth) Authenticate(addr net.Addr, auth string, tx uint64) (bool, string) {
 	c := a.e.connOf(addr)
+	a.e.mu.Lock()
+	a.e.calls[auth]++
+	n := a.e.calls[auth]
+	gate := a.e.gate
+	a.e.mu.Unlock()
 	a.e.add(vEntry{C: c, K: "authcall", Auth: auth, Rx: strconv.FormatUint(tx, 10)})
 	if strings.Contains(auth, "slow") {
 		time.Sleep(2 * time.Millisecond) // a slow authentication backend: widens the window of concurrent attempts
 	}
-	ok := strings.HasPrefix(auth, "good")
+	if strings.Contains(auth, "hold") {
+		// a backend that has not answered yet: the harness decides when it does
+		select {
+		case <-gate:
+		case <-time.After(15 * time.Second):
+			a.e.add(vEntry{C: c, K: "holdtimeout", Auth: auth})
+		}
+	}
+	// the verdict is taken when the backend answers (revocation in the meantime counts)
+	a.e.mu.Lock()
+	p := a.e.pol[auth]
+	var ok bool
+	if p != nil {
+		ok = p.accepts(c, n, tx)
+	} else {
+		ok = strings.HasPrefix(auth, "good")
+	}
+	a.e.mu.Unlock()
 	id := ""
 	if ok {
 		id = "id/" + auth
+		if p != nil {
+			id = "id/c" + strconv.Itoa(c) + "-" + auth // one credential, several connections: the id names the connection
+		}
 	}
 	a.e.add(vEntry{C: c, K: "authret", OK: ok, ID: id})
 	return ok, id
@@ -401,8 +485,14 @@ func vOracle(kind int, s vReqSpec) (int, [][2]string, []byte) {
 
 // ---------------------------------------------------------------- server
 
-func vStartServer(cfg vCfg) (*vEnv, error) {
-	e := &vEnv{addrs: map[string]int{}, cfg: cfg}
+func vStartServer(cfg vCfg, pol map[string]*vPol) (*vEnv, error) {
+	e := &vEnv{addrs: map[string]int{}, cfg: cfg, pol: map[string]*vPol{}, calls: map[string]int{}, gate: make(chan struct{})}
+	for k, p := range pol {
+		if p != nil {
+			cp := *p
+			e.pol[k] = &cp
+		}
+	}
 	e.cond = sync.NewCond(&e.mu)
 	udpConn, err := net.ListenUDP("udp", &net.UDPAddr{IP: net.IPv4(127, 0, 0, 1), Port: 0})
 	if err != nil {
@@ -518,7 +608,8 @@ func (cl *vClient) doReq(s vReqSpec, bar bool) (status int, hdr [][2]string, bod
 	if berr != nil {
 		return 0, nil, nil, berr
 	}
-	ent := vEntry{C: cl.c, K: "req", Rid: rid, M: s.Method, H: s.Host, P: path, Bar: bar}
+	ent := vEntry{C: cl.c, K: "req", Rid: rid, M: s.Method, H: s.Host, P: path, Bar: bar,
+		AF: s.Method == http.MethodPost && s.Host == protocol.URLHost && path == protocol.URLPath}
 	if s.HasA {
 		ent.Auth = s.Auth
 	}
